@@ -527,7 +527,7 @@ MT_ATOM = {"AUDIO": "audio", "VIDEO": "video", "SUBTITLES": "subtitles", "CLOSED
 
 def gen_xmedia(g, ty=None, group=None):
     ty = ty or g.pick(MTYPES)
-    m = {"type": ty, "uri": None, "group": group or g.pick(["g1", "g2", "aud", "grp,1", "grü=n"]),
+    m = {"type": ty, "uri": None, "group": group or g.pick(["g1", "g2", "aud", "grp,1", "grü=n", "NONE", "g1"]),   # a group may be spelled like the NONE keyword
          "lang": g.pick(["en", "de-CH", "zh-Hans"]) if g.chance(0.5) else None,
          "assoc": g.pick(["fr", "es"]) if g.chance(0.2) else None, "name": g.qstring(),
          "default": False, "autoselect": False, "forced": False, "instream": None,
